@@ -9,7 +9,7 @@ def build():
     u.prelude("stdx", "tacd_shims")
     u.take("tacd/src/main.rs", "ALPN_ACME_PROTO_NAME", "")
     u.module("openssl_server", "use crate::*;\nuse crate::acme_common::crypto::{KeyPair, X509Certificate};\n"
-             "use crate::anyhow::Result;\nuse crate::openssl::ssl::{self, AlpnError, HandshakeError, SslAcceptor, SslMethod, SslRef, SslStream};\n"
+             "use crate::anyhow::Result;\nuse crate::openssl::ssl::{self, AlpnError, HandshakeError, SslAcceptor, SslMethod, SslRef, SslStream, SslVersion};\n"
              "use crate::vnet::{TcpListener, UnixListener};\nuse std::sync::Arc;\nuse crate::vnet as thread;")
     u.take(S, "ALPN_ERROR", "openssl_server")
     u.raw("openssl_server", "broadcast use crate::anyhow::axiom_from_origin;")
